@@ -483,7 +483,7 @@ theorem evict_conf {S cfg p} (h : PoolConf S p) : PoolConf S (evict cfg p) := by
   exact ⟨fun t ht => h.t1 t (keepIdx_sub _ _ t ht), fun t ht => h.t2 t (keepIdx_sub _ _ t ht), h.r1, h.r2⟩
 
 theorem rebuild_conf {S cfg p} (h : PoolConf S p) : PoolConf S (rebuild cfg p) := by
-  refine ⟨?_, ?_, h.r1, h.r2⟩
+  refine ⟨?_, ?_, by simp [rebuild], by simp [rebuild]⟩
   · intro t ht
     rcases refill_kept_sub _ _ t ht with h' | h'
     · simp at h'
